@@ -411,7 +411,7 @@ class TypeAnnotator:
                     struct_type = exp.DataType(
                         this=exp.DType.STRUCT,
                         expressions=[
-                            exp.ColumnDef(this=exp.to_identifier(str(c)), kind=kind)
+                            exp.ColumnDef(this=exp.to_identifier(str(c)), kind=exp.maybe_copy(kind))
                             for c, kind in schema.items()
                         ],
                         nested=True,
@@ -899,7 +899,9 @@ class TypeAnnotator:
         if array:
             self._set_type(
                 expression,
-                exp.DataType(this=exp.DType.ARRAY, expressions=[expression.type], nested=True),
+                exp.DataType(
+                    this=exp.DType.ARRAY, expressions=[exp.maybe_copy(expression.type)], nested=True
+                ),
             )
 
         return expression
